@@ -64,9 +64,7 @@ async fn main() {
             if reported.insert(class) {
                 let obs = match &again { Err(_) => "later next() never returns (queue empty)".to_string(), Ok(Err(e)) => format!("later next() failed: {}", e.1), Ok(Ok(_)) => "another item".to_string() };
                 rp_core::report(true, class, json!({"queue": ["A"], "next_polled_times_before_drop": k}), json!({"later_next": obs}),
-                    &["orderer_next::Processor@Orderer::next.await1#no_released_item_in_flight", "orderer_next::Processor@Orderer::next.await2#no_released_item_in_flight", "orderer_next::Processor@Orderer::next.await3#no_released_item_in_flight",
-                      "orderer_next::Processor@Orderer::next.await4#no_released_item_in_flight", "orderer_next::Processor@Orderer::next.await5#no_released_item_in_flight", "orderer_next::Processor@Orderer::next.await6#no_released_item_in_flight",
-                      "orderer_next::Processor@Orderer::next.ensures#returns_head_and_removes_exactly_it", "orderer_next::Processor@Orderer::next.loop1.invariant#nothing_taken_yet", "orderer_next::Processor@Orderer::next.safety"]);
+                    &[]);
             }
         }
         drop(orderer); drop(store);
